@@ -451,6 +451,10 @@ class Exec:
                 except SpecError as e:
                     raise ContractError('%s: use %s at back%d: %s' % (short_fn(self.prog, self.f.name), lname, loop['ordinal'], e))
                 apply_lemma(vc, vc.cs.lemmas[lname], avs, ug, 'loop%d.back%d.use.%s' % (loop['ordinal'], k, lname), self.contract.tags, line)
+        for i, cl in enumerate(getattr(lc, 'repeats', [])):
+            ev = self.spec(env, st, self.entry_state, self.entry_env)
+            g = self.eval_clause(ev, cl, 'repeat-only-if', 'goal')
+            self.oblige('repeat', 'the body goes round again only if ' + cl.text, cond, g.term, cl.tags, line, site='loop%d.back%d.r%d' % (loop['ordinal'], k, i), skolems=ev.skolems)
         for i, cl in enumerate(lc.invariants):
             ev = self.spec(env, st, self.entry_state, self.entry_env)
             g = self.eval_clause(ev, cl, 'invariant', 'goal')
